@@ -437,11 +437,16 @@ class ProvRecord(object):
                     )
                     value = self._bundle.valid_qualified_name(qname)
                 elif attr in PROV_ATTRIBUTE_LITERALS:
-                    value = (
-                        original_value
-                        if isinstance(original_value, datetime.datetime)
-                        else parse_xsd_datetime(original_value)
-                    )
+                    if isinstance(original_value, Literal):
+                        # a time given as a typed literal, e.g. read from a
+                        # text that spells out xsi:type="xsd:dateTime"
+                        original_value = self._auto_literal_conversion(original_value)
+                    if isinstance(original_value, datetime.datetime):
+                        value = original_value
+                    elif isinstance(original_value, str):
+                        value = parse_xsd_datetime(original_value)
+                    else:
+                        value = None
                 else:
                     value = self._auto_literal_conversion(original_value)
 
